@@ -28,10 +28,11 @@ Inductive role := Server | Client.
 
 (* transport calls h3 makes on the request's own stream, and the frames it writes there *)
 Inductive call := CReset (c : N) | CStop (c : N) | CFin.
-Inductive witem := WHeaders (tag : N) | WData (bs : bytes) | WTrailers.   (* tag: status of a response, 0 for a request *)
+Inductive witem := WHeaders (tag : N) | WData (bs : bytes) | WTrailers | WGrease.   (* tag: status of a response, 0 for a request *)
 
 (* what the application sees at the end of a request *)
-Inductive errclass := KStreamError | KRemoteTerminate | KHeaderTooBig | KRemoteClosing.
+(* KUndefined: StreamError::Undefined, what a transport-specific stream error becomes (no code) *)
+Inductive errclass := KStreamError | KRemoteTerminate | KHeaderTooBig | KRemoteClosing | KUndefined.
 Inductive outcome :=
 | ONone                                         (* still running *)
 | OOk                                           (* completed normally *)
@@ -52,8 +53,10 @@ Definition STATUS_HEADER_FIELDS_TOO_LARGE : N := 431.
 Definition SIZE_OF_431_SECTION : N := 42.
 
 (* per-request constants of the scenario: our role, the size of the field section WE send, the body WE send,
-   the size of the trailer section WE send (None: no trailers) *)
-Record rcfg := { c_role : role; c_hsize : N; c_body : bytes; c_trl : option N }.
+   the size of the trailer section WE send (None: no trailers); whether this request carries the connection's
+   one reserved-type ("grease") frame, written by finish(); whether the transport reports a STOP_SENDING seen
+   while finishing as a transport-specific error (as h3-quinn does) instead of StreamTerminated *)
+Record rcfg := { c_role : role; c_hsize : N; c_body : bytes; c_trl : option N; c_grease : bool; c_unk : bool }.
 (* disturbances that are not faults of the stream's own bytes: a STOP_SENDING for this request, the
    limit announced in the peer's SETTINGS (if it arrives at all), a GOAWAY from the peer *)
 Record renv := { e_stop : option N; e_limit : option N; e_goaway : bool }.
@@ -99,7 +102,7 @@ Definition healthy_tx (c : rcfg) : list witem :=
   (match c_role c with
    | Server => [WHeaders STATUS_OK; WData (c_body c)]
    | Client => [WHeaders 0; WData (c_body c)]
-   end) ++ (match c_trl c with Some _ => [WTrailers] | None => [] end).
+   end) ++ (match c_trl c with Some _ => [WTrailers] | None => [] end) ++ (if c_grease c then [WGrease] else []).
 
 Definition over (sz : N) (lim : option N) : bool :=
   match lim with Some v => v <? sz | None => false end.
@@ -158,7 +161,9 @@ Definition all_data (s : list ev) : bytes :=
 (* outcomes that the environment's disturbances add *)
 Definition classify_env (c : rcfg) (e : renv) (s : list ev) : list allowance :=
   (match e_stop e with
-   | Some code => [AErr KRemoteTerminate (Some code) [] (all_data s) None]
+   | Some code =>
+       AErr KRemoteTerminate (Some code) [] (all_data s) None ::
+       (if c_unk c then [AErr KUndefined None [] (all_data s) None] else [])
    | None => []
    end) ++
   (if over (c_hsize c) (e_limit e)
@@ -204,6 +209,7 @@ Definition witem_eqb (a b : witem) : bool :=
   | WHeaders x, WHeaders y => x =? y
   | WData x, WData y => bytes_eqb x y
   | WTrailers, WTrailers => true
+  | WGrease, WGrease => true
   | _, _ => false
   end.
 Fixpoint list_eqb {A} (eqb : A -> A -> bool) (a b : list A) : bool :=
@@ -216,7 +222,7 @@ Definition is_abort (c : call) : bool := match c with CFin => false | _ => true 
 Definition errclass_eqb (a b : errclass) : bool :=
   match a, b with
   | KStreamError, KStreamError | KRemoteTerminate, KRemoteTerminate
-  | KHeaderTooBig, KHeaderTooBig | KRemoteClosing, KRemoteClosing => true
+  | KHeaderTooBig, KHeaderTooBig | KRemoteClosing, KRemoteClosing | KUndefined, KUndefined => true
   | _, _ => false
   end.
 Definition optN_eqb (a b : option N) : bool :=
